@@ -94,3 +94,37 @@ Definition Known_C15_tempid (s : store) : bool :=
   existsb (fun ha => negb (is_some (a_id (snd ha)))) (live_items (anns s))
   || existsb (fun hd => existsb (fun hx => negb (is_some (x_id (snd hx)))) (live_items (d_data (snd hd))))
              (live_items (sets s)).
+
+(** well-formedness of the ranges a store holds (what annotate() guarantees, C04): every known
+    text selection lies inside its resource, an annotation-relative selection inside the
+    selection of the annotation it is relative to, and lengths fit the cursor type *)
+Definition fits (n : nat) : bool := (N.of_nat n <=? isize_max)%N.
+Definition range_ok (len : nat) (rg : nat * nat) : bool := (fst rg <=? snd rg) && (snd rg <=? len).
+Definition res_ok (rs : res) : bool := fits (r_len rs) && forallb (range_ok (r_len rs)) (r_sels rs).
+Definition leaf_ok (s : store) (lf : leaf) : bool :=
+  match lf with
+  | LAnnText a r t _ =>
+      match get_ann s a with
+      | Some an =>
+          match ann_textsel s an with
+          | Some (r', _, prg) =>
+              let rg := sel_range s r t in
+              Nat.eqb r r' && (fst prg <=? fst rg) && (snd rg <=? snd prg)
+          | None => false
+          end
+      | None => false
+      end
+  | _ => true
+  end.
+Definition store_ok (s : store) : bool :=
+  forallb (fun hr => res_ok (snd hr)) (live_items (ress s))
+  && forallb (fun ha => forallb (leaf_ok s) (a_leaves (snd ha))) (live_items (anns s)).
+
+(** known finding: an annotation whose target is a complex selector without any sub-selector
+    (annotate() accepts MultiSelector([])) is saved as a row the reader refuses *)
+Definition Known_C15_empty_complex (s : store) : bool :=
+  existsb (fun ha => negb (Nat.eqb (a_kind (snd ha)) 0) && match a_leaves (snd ha) with [] => true | _ => false end)
+          (live_items (anns s)).
+
+Definition known_class (s : store) : nat :=
+  if Known_C15_tempid s then 1 else if Known_C15_empty_complex s then 2 else 0.
